@@ -31,7 +31,7 @@ func (p *Parser) parseWithStatement() (ast.Statement, error) {
 		if err != nil {
 			return nil, goerrors.InvalidCTEError(
 				fmt.Sprintf("error parsing CTE definition: %v", err),
-				models.Location{},
+				p.currentLocation(),
 				"",
 			).WithCause(err)
 		}
@@ -56,7 +56,7 @@ func (p *Parser) parseWithStatement() (ast.Statement, error) {
 	if err != nil {
 		return nil, goerrors.InvalidCTEError(
 			fmt.Sprintf("error parsing statement after WITH clause: %v", err),
-			models.Location{},
+			p.currentLocation(),
 			"",
 		).WithCause(err)
 	}
@@ -93,7 +93,7 @@ func (p *Parser) parseWithStatement() (ast.Statement, error) {
 	default:
 		return nil, goerrors.InvalidCTEError(
 			fmt.Sprintf("WITH clause not supported with statement type: %T", stmt),
-			models.Location{},
+			p.currentLocation(),
 			"",
 		)
 	}
@@ -114,7 +114,7 @@ func (p *Parser) parseCommonTableExpr() (*ast.CommonTableExpr, error) {
 		return nil, goerrors.NewError(
 			goerrors.ErrCodeRecursionDepthLimit,
 			fmt.Sprintf("maximum recursion depth exceeded (%d) - CTE too deeply nested", MaxRecursionDepth),
-			models.Location{},
+			p.currentLocation(),
 		)
 	}
 
@@ -195,7 +195,7 @@ func (p *Parser) parseCommonTableExpr() (*ast.CommonTableExpr, error) {
 	if err != nil {
 		return nil, goerrors.InvalidCTEError(
 			fmt.Sprintf("error parsing CTE subquery: %v", err),
-			models.Location{},
+			p.currentLocation(),
 			"",
 		).WithCause(err)
 	}
